@@ -8,7 +8,10 @@ for d in sorted(glob.glob('/verif/seeded/*/')):
     name = os.path.basename(d.rstrip('/'))
     v = m['verdict'].replace('|', '/').replace('\n', ' ')
     missed = v.lower().startswith('missed') or 'would have been missed' in v or 'only as correspondence-broken' in v.lower()
-    rows.append((name, m['breaks_property'], m['needs_to_manifest'].replace('|', '/'), ('**' + v.split(':')[0] + '**:' + v.split(':', 1)[1]) if missed and ':' in v else v))
+    if missed:
+        mm = re.match(r"(missed at first|missed-then-caught|would have been missed|missed)(.*)$", v, re.S)
+        v = ('**' + mm.group(1) + '**' + mm.group(2)) if mm else '**missed at first**: ' + v
+    rows.append((name, m['breaks_property'], m['needs_to_manifest'].replace('|', '/'), v))
 tbl = ["| seeded change | property | needs | outcome (which check reports it; what had to be strengthened) |", "|---|---|---|---|"]
 for r in rows:
     tbl.append("| %s | %s | %s | %s |" % r)
